@@ -243,6 +243,10 @@ class SelectWorkersContract(Contract):
         # declared defaults: exactly one worker
         out.append(dict(n=3, kind="default", t="Fm", default_nb=True))
         out.append(dict(n=2, kind="min", t="Fo", default_nb=True))
+        # the selection required as a dynamic resource: a selected worker is held for some non-negative span inside the
+        # task's span (the whole span is one such span)
+        out.append(dict(n=2, kind="exact", t="Fm", dynamic=True))
+        out.append(dict(n=3, kind="min", t="Vo", dynamic=True))
         return out
 
     def nb(self, P, case):
@@ -261,7 +265,10 @@ class SelectWorkersContract(Contract):
         if case["kind"] != "default":
             kw["kind"] = case["kind"]
         sw = ps.SelectWorkers(list_of_workers=workers, **kw)
-        t.add_required_resource(sw)
+        if case.get("dynamic"):
+            t.add_required_resource(sw, dynamic=True)
+        else:
+            t.add_required_resource(sw)
         solver = ps.SchedulingSolver(problem=pb)
         solver.initialize()
         return dict(pb=pb, t=t, workers=workers, sw=sw, solver=solver)
@@ -284,7 +291,10 @@ class SelectWorkersContract(Contract):
             bs, be = busy(w, t)
             # a selected worker of a scheduled task is held for the task's whole span; a worker that is
             # not selected is not held: its interval is not a real one (negative, reported nowhere)
-            cs.append(Implies(And(b, s), And(bs == t._start, be == t._end)))
+            if case.get("dynamic"):
+                cs.append(Implies(And(b, s), And(bs >= t._start, be <= t._end, bs <= be)))
+            else:
+                cs.append(Implies(And(b, s), And(bs == t._start, be == t._end)))
             cs.append(Implies(Not(b), And(bs < 0, be < 0)))
         M = And(*cs)
         out = [
